@@ -15,9 +15,16 @@ source with the scheduler's `threading`/`time` (MultiEvent subclasses threading.
 not reach it).  Afterwards `SecNode.shutdown_modules` is called, as `Server.run` does.
 """
 import io as _io
+import json
+import os
+import random
 import re
 import sys
+import time
 import types
+
+from check import Result
+from vlib.shrink import ddmin
 
 from vlib import sched as vsched
 from vlib.node import patch_version
@@ -206,7 +213,8 @@ def error_classes(errors):
     for e in errors:
         mo = ERR_INIT.match(e)
         if mo:
-            out.append(['init', mo.group(1), mo.group(2)])
+            # SECoPError.__repr__ prints the SECoP error class name: a ConfigError shows as InternalError
+            out.append(['init', mo.group(1), {'InternalError': 'ConfigError'}.get(mo.group(2), mo.group(2))])
             continue
         mo = ERR_CREATE.match(e)
         if mo:
@@ -306,3 +314,432 @@ def run_case(case, policy=None, max_steps=200000):
                     'steps': r['steps']}
     out['choices'] = [c for _n, c, _d in s.choices]
     return out
+
+
+# =========================================================================================================
+# generators
+# =========================================================================================================
+def mkspec(name, cls='L', export=True, poll=True, writes=(), atts=(), te=(), ti=(), fe=False, fi=False, uri=None,
+           scan=(), delay=0):
+    return {'name': name, 'cls': cls, 'export': bool(export), 'poll': bool(poll), 'writes': list(writes),
+            'atts': [list(a) for a in atts], 'te': list(te), 'ti': list(ti), 'fe': bool(fe), 'fi': bool(fi),
+            'uri': uri, 'scan': list(scan), 'delay': int(delay)}
+
+
+def all_graphs(n):
+    """all digraphs without self loops on n labelled nodes (label = position in the declaration order)"""
+    pairs = [(i, j) for i in range(n) for j in range(n) if i != j]
+    for mask in range(1 << len(pairs)):
+        yield [p for k, p in enumerate(pairs) if mask >> k & 1]
+
+
+def is_dag(n, edges):
+    indeg_free = set(range(n))
+    es = list(edges)
+    while True:
+        leaves = {u for u in indeg_free if not any(a == u and b in indeg_free for a, b in es)}
+        if not leaves:
+            break
+        indeg_free -= leaves
+    return not indeg_free
+
+
+def all_dags(n):
+    for edges in all_graphs(n):
+        if is_dag(n, edges):
+            yield edges
+
+
+def random_graph(rng, n, acyclic):
+    if acyclic:
+        order = list(range(n))
+        rng.shuffle(order)
+        p = rng.choice([0.2, 0.4, 0.7])
+        return [(order[i], order[j]) for i in range(n) for j in range(i + 1, n) if rng.random() < p]
+    p = rng.choice([0.15, 0.3, 0.5])
+    return [(i, j) for i in range(n) for j in range(n) if (i != j or rng.random() < 0.3) and rng.random() < p]
+
+
+VARIANTS = ['plain', 'plain', 'plain', 'plain', 'touchy', 'touchy', 'fail', 'missing', 'hio', 'hio', 'pin', 'slow']
+
+
+def build_case(rng, n, edges, variant):
+    """a configuration on the attachment graph `edges` over m0..m(n-1), decorated according to `variant`"""
+    mods = []
+    for i in range(n):
+        atts = [['a%d' % j, 'm%d' % j, rng.random() < 0.6, 0] for (u, j) in edges if u == i]
+        touch_p = {'plain': 0.25, 'touchy': 0.8}.get(variant, 0.3)
+        te = [a[0] for a in atts if rng.random() < touch_p / 2]
+        ti = [a[0] for a in atts if rng.random() < touch_p]
+        if variant == 'touchy' and rng.random() < 0.3:
+            ti = ti + ti[:1]                 # used twice
+        writes = rng.choice([[], [], ['w0'], ['w1'], ['w0', 'w1']])
+        mods.append(mkspec('m%d' % i, export=rng.random() < 0.7, poll=rng.random() < 0.7, writes=writes, atts=atts,
+                           te=te, ti=ti))
+        if rng.random() < 0.25 and len(atts) < 5:
+            free = [a for a in ATT_NAMES if a not in [x[0] for x in atts]]
+            mods[-1]['atts'].append([rng.choice(free), None, False, 0])        # optional attachment left empty
+    dyn = []
+    if variant == 'fail' and mods:
+        m = rng.choice(mods)
+        m[rng.choice(['fe', 'fi'])] = True
+    elif variant == 'missing' and mods:
+        m = rng.choice(mods)
+        free = [a for a in ATT_NAMES if a not in [x[0] for x in m['atts']]]
+        r = rng.random()
+        if free and r < 0.45:
+            m['atts'].append([free[0], 'zz', rng.random() < 0.5, 0])       # no such module
+            if rng.random() < 0.4:
+                rng.choice([m['te'], m['ti']]).append(free[0])
+        elif free and r < 0.6:
+            m['atts'].append([free[0], None, True, 0])                     # mandatory, no value
+        elif m['atts']:
+            a = rng.choice(m['atts'])
+            a[3] = 1                                                       # must be a Communicator
+            if a[1] and rng.random() < 0.5:
+                for t in mods:
+                    if t['name'] == a[1]:
+                        t['cls'] = 'IO'                                    # ... and is one: fine after all
+    elif variant == 'hio' and mods:
+        k = rng.choice([1, 2, 2, 3])
+        users = rng.sample(mods, min(k, len(mods)))
+        mode = rng.choice(['uri', 'uri', 'explicit', 'none', 'mixed'])
+        comm = None
+        if mode in ('explicit', 'mixed'):
+            cands = [m for m in mods if m not in users]
+            if cands:
+                comm = rng.choice(cands)
+                comm['cls'] = 'IO'
+        for idx, m in enumerate(users):
+            m['cls'] = 'HIO'
+            target = None
+            if mode == 'uri' or (mode == 'mixed' and idx == 0) or (mode == 'explicit' and comm is None):
+                m['uri'] = rng.choice(['x://1', 'x://1', 'x://2'])
+            elif mode in ('explicit', 'mixed') and comm is not None:
+                target = comm['name']
+            m['atts'].append(['io', target, False, 0])
+    elif variant == 'pin':
+        nd = rng.choice([1, 2])
+        names = ['d%d' % i for i in range(nd)]
+        for dn in names:
+            targets = rng.sample(range(n), min(n, rng.choice([0, 1, 2]))) if n else []
+            atts = [['a%d' % j, 'm%d' % j, True, 0] for j in targets]
+            dyn.append(mkspec(dn, export=rng.random() < 0.7, poll=rng.random() < 0.7,
+                              writes=rng.choice([[], ['w0']]), atts=atts,
+                              ti=[a[0] for a in atts if rng.random() < 0.5]))
+        pin = mkspec('p', cls='PIN', export=rng.random() < 0.3, poll=rng.random() < 0.5, scan=names)
+        mods.insert(rng.randint(0, len(mods)), pin)
+        if rng.random() < 0.2 and len(names) > 1:
+            pin['scan'].append(names[0])          # yields a module twice
+    elif variant == 'slow' and mods:
+        for m in rng.sample(mods, min(len(mods), rng.choice([1, 1, 2]))):
+            m['delay'] = rng.choice([4, 100, 100])
+    return {'mods': mods, 'dyn': dyn, 'sched': None}
+
+
+# =========================================================================================================
+# observation, model, judge
+# =========================================================================================================
+def canon_log(log):
+    """consecutive `timeout` events come from a set: sort them"""
+    out, run_ = [], []
+    for e in log:
+        if e[0] == 'timeout':
+            run_.append(e)
+            continue
+        out += sorted(run_)
+        run_ = []
+        out.append(e)
+    return out + sorted(run_)
+
+
+def observe(case, policy=None):
+    """run the real code; -> obs (what is compared / judged), raw"""
+    import frappy.io
+    raw = run_case(case, policy)
+    if raw['sched']['aborted'] not in (None, 'process exit') or raw['sched']['deadlock']:
+        raise RuntimeError(f'scheduler: {raw["sched"]}')
+    log = []
+    for e in raw['log']:
+        if e[0] == 'timeout' and (not log or log[-1][0] not in ('timeout', 'deadline')) \
+                and raw['waited'] is not None and raw['waited'] >= TIMEOUT - 0.01:
+            log.append(['deadline'])          # the virtual clock says the wait lasted until the deadline
+        log.append(list(e))
+    log = canon_log(log)
+    shutdown = [e[1] for e in log if e[0] == 'shutdown']
+    obs = {'modules': raw['modules'], 'errors': raw['errors'], 'log': log,
+           'ioDict': sorted([k, v] for k, v in frappy.io.HasIO.ioDict.items()),
+           'edges': raw['edges'], 'exit': raw['exit'], 'crash': raw['crash'], 'thread_errors': raw['sched']['errors'],
+           'shutdown': shutdown}
+    return obs, raw
+
+
+def wire_cfg(case):
+    return {'mods': case['mods'], 'dyn': case.get('dyn', [])}
+
+
+def requests_for(case, obs):
+    cfg = wire_cfg(case)
+    return [{'p': 'C15', 'k': 'run', 'cfg': cfg, 'log': obs['log'], 'shutdown': obs['shutdown']},
+            {'p': 'C15', 'k': 'judge', 'cfg': cfg, 'modules': obs['modules'], 'errors': obs['errors'],
+             'log': obs['log'], 'ioDict': obs['ioDict']}]
+
+
+def model_view(model):
+    return {'modules': model['modules'], 'errors': model['errors'], 'ioDict': sorted(model['ioDict']),
+            'edges': sorted(model['edges']), 'log': canon_log(model['log'])}
+
+
+def impl_view(obs):
+    return {'modules': obs['modules'], 'errors': obs['errors'], 'ioDict': obs['ioDict'], 'edges': sorted(obs['edges']),
+            'log': obs['log']}
+
+
+def first_diff(a, b):
+    for k in ('modules', 'errors', 'ioDict', 'log', 'edges'):
+        if a[k] != b[k]:
+            if k == 'log':
+                for i, (x, y) in enumerate(zip(a[k], b[k])):
+                    if x != y:
+                        return {'field': 'log', 'index': i, 'model': a[k][max(0, i - 2):i + 3], 'impl': b[k][max(0, i - 2):i + 3]}
+                i = min(len(a[k]), len(b[k]))
+                return {'field': 'log', 'index': i, 'model': a[k][i - 2:i + 3], 'impl': b[k][i - 2:i + 3]}
+            return {'field': k, 'model': a[k], 'impl': b[k]}
+    return None
+
+
+# ---- shrinking: a case as a list of independent features -------------------------------------------------
+def features(case):
+    items = []
+    for sp in case['mods']:
+        items.append(('mod', sp['name']))
+    for sp in case.get('dyn', []):
+        items.append(('dyn', sp['name']))
+    for sp in case['mods'] + case.get('dyn', []):
+        for a in sp['atts']:
+            items.append(('att', sp['name'], a[0]))
+        for f in ('te', 'ti'):
+            for i, a in enumerate(sp[f]):
+                items.append((f, sp['name'], i))
+        for w in sp['writes']:
+            items.append(('w', sp['name'], w))
+        for f in ('fe', 'fi', 'delay', 'uri'):
+            if sp[f]:
+                items.append((f, sp['name']))
+        if not sp['export']:
+            items.append(('noexport', sp['name']))
+        if sp['poll']:
+            items.append(('poll', sp['name']))
+    for i, c in enumerate(case.get('sched') or []):
+        if c:
+            items.append(('sched', i))
+    return items
+
+
+def rebuild(case, items):
+    items = set(items)
+    out = {'mods': [], 'dyn': [], 'sched': None}
+    for key, lst in (('mods', case['mods']), ('dyn', case.get('dyn', []))):
+        for sp in lst:
+            if (('mod' if key == 'mods' else 'dyn'), sp['name']) not in items:
+                continue
+            n = sp['name']
+            atts = [list(a) for a in sp['atts'] if ('att', n, a[0]) in items]
+            have = {a[0] for a in atts}
+            new = dict(sp, atts=atts,
+                       te=[a for i, a in enumerate(sp['te']) if ('te', n, i) in items and a in have],
+                       ti=[a for i, a in enumerate(sp['ti']) if ('ti', n, i) in items and a in have],
+                       writes=[w for w in sp['writes'] if ('w', n, w) in items],
+                       fe=sp['fe'] and ('fe', n) in items, fi=sp['fi'] and ('fi', n) in items,
+                       delay=sp['delay'] if ('delay', n) in items else 0,
+                       uri=sp['uri'] if ('uri', n) in items else None,
+                       export=('noexport', n) not in items if sp['cls'] != 'PIN' else sp['export'],
+                       poll=('poll', n) in items)
+            out[key].append(new)
+    names = {sp['name'] for sp in out['dyn']}
+    for sp in out['mods']:
+        sp['scan'] = [s for s in sp['scan'] if s in names]
+    sched = case.get('sched') or []
+    if sched:
+        out['sched'] = [c if ('sched', i) in items else 0 for i, c in enumerate(sched)]
+    return out
+
+
+def judge_case(ctx, case):
+    obs, _raw = observe(case)
+    ans = ctx.driver.batch(requests_for(case, obs))
+    return obs, ans[0], ans[1]
+
+
+def shrink(ctx, case, clause):
+    def fails(items):
+        c = rebuild(case, items)
+        if not c['mods']:
+            return False
+        _o, _m, j = judge_case(ctx, c)
+        return clause in j.get('failed', [])
+    try:
+        small = ddmin(features(case), fails, max_tests=150)
+        c = rebuild(case, small)
+        _o, _m, j = judge_case(ctx, c)
+        if clause in j.get('failed', []):
+            return c
+    except Exception:
+        pass
+    return case
+
+
+def signature(case, clause, obs):
+    """short stable description of what fails"""
+    specs = case['mods'] + case.get('dyn', [])
+    edges = [(sp['name'], a[1]) for sp in specs for a in sp['atts'] if a[1]]
+    names = {sp['name'] for sp in specs}
+    idx = {n: i for i, n in enumerate(sorted(names))}
+    if not is_dag(len(idx), [(idx[u], idx[t]) for u, t in edges if t in idx and u != t]) or any(u == t for u, t in edges):
+        tag = 'cyclic'
+    elif any(t not in names for _u, t in edges) or any(a[2] and a[1] is None for sp in specs for a in sp['atts']):
+        tag = 'missing'
+    elif any(a[3] == 1 for sp in specs for a in sp['atts']):
+        tag = 'typed'
+    elif any(sp['fe'] or sp['fi'] for sp in specs):
+        tag = 'failing-init'
+    elif obs['errors']:
+        tag = 'errors'
+    elif any(not sp['export'] for sp in specs if sp['cls'] != 'PIN'):
+        tag = 'unexported'
+    else:
+        tag = 'plain'
+    return 'C15:%s:%s' % (clause, tag)
+
+
+META = {
+    'level_text': 'Theorems over the Lean model of SecNode.get_module/create_modules/_getSortedModules, Server._processCfg, the poll '
+                  'thread prologue and an abstract MultiEvent, for all configurations, fuel, schedules and choice functions of '
+                  'set.pop(): see design_notes/C15.md for the list (full vs _partial).  The model is tied to the code by running '
+                  'the real Server._processCfg + SecNode.shutdown_modules with instrumented module classes under the deterministic '
+                  'scheduler on all attachment graphs up to 4 modules (5 in the thorough tier: all DAGs + sampled cyclic graphs); '
+                  'the Lean monitors judge every implementation log.',
+    'level_note': 'Trusted: Lean kernel + axioms propext/Classical.choice/Quot.sound; vlib.sched (virtual clock, gated threads); '
+                  'multievent.py is re-executed from source with the scheduler\'s threading/time; the instrumented classes log '
+                  'before calling super(); acyclicity is characterised by a rank function (topological numbering).',
+    'trusted': [
+        'vlib.sched: gated real threads + virtual clock reproduce an admissible interleaving of the real threads',
+        'the instrumented module classes (log, then super()) do not change the lifecycle',
+        'a finite graph is acyclic iff it has a topological numbering (`Ranked`); the monitor uses Kahn stripping',
+    ],
+    'modelled_not_verified': [
+        'Module.__init__ (property/parameter configuration) — only "mandatory attachment without value" is modelled',
+        'the poll loop after the first round; communication failures during the first round',
+        'Dispatcher, interfaces, daemonising, signal handling, restart',
+    ],
+    'assumptions': ['Pinatas are declared statically and have no attachments of their own',
+                    'module names are distinct from the names of automatically created communicators'],
+}
+
+
+def run(ctx):
+    res = Result()
+    res.rule = ('a case = attachment graph x declaration order (labelled digraph) x variant decoration; non-trivial = at least 2 '
+                'modules, at least one attachment, and the node either came up and was shut down or was rejected with errors')
+    rng = ctx.rng
+    thorough = ctx.tier == 'thorough' or ctx.escalated
+    cases = []
+    cdir = os.path.join(ctx.verif, 'corpus', 'C15')
+    if os.path.isdir(cdir):
+        for fn in sorted(os.listdir(cdir)):
+            with open(os.path.join(cdir, fn)) as f:
+                cases.append(('corpus', json.load(f)['case']))
+    # exhaustive part
+    for n in (1, 2, 3):
+        for edges in all_graphs(n):
+            for v in (['plain', 'touchy', 'fail', 'missing', 'hio', 'pin', 'slow'] if n > 1 else VARIANTS):
+                cases.append((f'n{n}', build_case(rng, n, edges, v)))
+    reps = ctx.budget(1, 3)
+    for edges in all_graphs(4):
+        for _ in range(reps):
+            cases.append(('n4', build_case(rng, 4, edges, rng.choice(VARIANTS))))
+    if thorough:
+        for edges in all_dags(5):
+            cases.append(('n5dag', build_case(rng, 5, edges, rng.choice(VARIANTS))))
+        for _ in range(ctx.budget(0, 30000)):
+            cases.append(('n5rnd', build_case(rng, 5, random_graph(rng, 5, False), rng.choice(VARIANTS))))
+    # self loops and random schedules
+    for _ in range(ctx.budget(300, 4000)):
+        n = rng.choice([2, 3, 4])
+        c = build_case(rng, n, random_graph(rng, n, rng.random() < 0.7), rng.choice(VARIANTS + ['slow', 'hio']))
+        c['_random_sched'] = True
+        cases.append(('sched', c))
+
+    t_end = time.time() + (55 if ctx.tier == 'quick' else 14 * 60)
+    reqs, metas = [], []
+    for kind, case in cases:
+        if time.time() > t_end:
+            res.notes.append(f'time budget reached after {len(metas)} of {len(cases)} cases')
+            break
+        policy = None
+        if case.pop('_random_sched', False):
+            policy = vsched.RandomPolicy(random.Random(rng.random()), 0.3)
+        obs, raw = observe(case, policy)
+        if policy is not None:
+            case['sched'] = raw['choices']
+        reqs += requests_for(case, obs)
+        metas.append((kind, case, obs))
+    answers = ctx.driver.batch(reqs, timeout=600)
+    shrunk = 0
+    for j, (kind, case, obs) in enumerate(metas):
+        model, judge = answers[2 * j], answers[2 * j + 1]
+        if 'driver_error' in model or 'driver_error' in judge:
+            raise RuntimeError(f'driver error: {model} {judge} {json.dumps(case)}')
+        res.evaluations += 1
+        res.traces += 1
+        specs = case['mods'] + case.get('dyn', [])
+        natt = sum(1 for sp in specs for a in sp['atts'] if a[1])
+        res.count('kind.' + kind)
+        res.count('outcome.' + ('crash' if obs['crash'] else 'errors' if obs['errors'] else 'up'))
+        res.count('cfg.' + ('clean' if judge['clean'] else 'bad-attachment' if judge['bad'] else 'other-defect'))
+        res.count('attachments.%s' % (natt if natt < 4 else '4+'))
+        if len(specs) >= 2 and natt >= 1:
+            res.nontriv(wire_cfg(case))
+        if len(res.samples) < 4 and natt >= 2 and len(obs['log']) < 40 and (len(res.samples) % 2 == 0) == bool(obs['errors']):
+            res.samples.append({'cfg': wire_cfg(case), 'log': [' '.join(e) for e in obs['log']], 'errors': obs['errors']})
+        if obs['crash'] or obs['thread_errors']:
+            res.violations.append({'sig': 'C15:crash:%s' % (obs['crash'] or sorted(obs['thread_errors'].values())),
+                                   'what': f'lifecycle crashed: {obs["crash"]} {obs["thread_errors"]}', 'case': case})
+            continue
+        if ctx.model_ok:
+            if model['oof']:
+                res.disagreements.append({'case': case, 'model': 'fuel exhausted', 'impl': None})
+            else:
+                d = first_diff(model_view(model), impl_view(obs))
+                if d is not None:
+                    res.disagreements.append({'case': case, 'model': d.get('model'), 'impl': d.get('impl'),
+                                              'where': {k: v for k, v in d.items() if k not in ('model', 'impl')}})
+        for clause in judge['failed']:
+            small = case
+            if shrunk < 6:
+                shrunk += 1
+                small = shrink(ctx, case, clause)
+            o2, _ = observe(small)
+            res.violations.append({'sig': signature(small, clause, o2),
+                                   'what': f'{clause} broken: cfg={json.dumps(wire_cfg(small))} log={[" ".join(e) for e in o2["log"]]} '
+                                           f'errors={o2["errors"]}',
+                                   'case': small, 'detail': {'clause': clause, 'original': case}})
+    res.notes.append('O02 (observation): HasIO.ioDict is a class-level dictionary shared by every node of the process; the harness '
+                     'clears it before every case')
+    return res
+
+
+def replay(ctx, rp):
+    case = rp['case']
+    obs, _raw = observe(case)
+    a = ctx.driver.batch(requests_for(case, obs))
+    print('cfg    :', json.dumps(wire_cfg(case)))
+    print('impl   :', ' '.join('.'.join(e) for e in obs['log']))
+    print('errors :', obs['errors'], ' modules:', obs['modules'])
+    print('model  :', ' '.join('.'.join(e) for e in canon_log(a[0].get('log', []))), a[0].get('errors'))
+    print('judge  :', a[1])
+    clause = (rp.get('detail') or {}).get('clause')
+    failed = a[1].get('failed', ['driver_error'])
+    if obs['crash'] or obs['thread_errors']:
+        return 1
+    return 1 if (clause in failed if clause else failed) else 0
